@@ -279,11 +279,13 @@ theorem victims_after_full (nowMs : Nat) (hours : Int) (s : Store) :
     exact ⟨List.mem_map.mpr ⟨m, hms, rfl⟩, hP⟩
   exact List.mem_map.mpr ⟨_, this, rfl⟩
 
-theorem interrupt_repeat (nowMs : Nat) (hours : Int) (s : Store) (cut : Nat) :
-    pass deleteOrder nowMs hours (passCut deleteOrder nowMs hours s cut) = pass deleteOrder nowMs hours s := by
-  unfold passCut
+/-- the protocol WITHOUT the .sfm reading (`passOld`: every pq step is a no-op): interrupted + repeated =
+uninterrupted, in all five stores -/
+theorem interrupt_repeat_old (nowMs : Nat) (hours : Int) (s : Store) (cut : Nat) :
+    passOld deleteOrder nowMs hours (passCutOld deleteOrder nowMs hours s cut) = passOld deleteOrder nowMs hours s := by
+  unfold passCutOld
   generalize hvs : victims nowMs hours 0 (readLocal s) = vs
-  unfold deleteSegmentData
+  unfold deleteSegmentDataOld
   by_cases he : vs.isEmpty = true
   · simp only [he, if_true]
   · simp only [he, if_false, Bool.false_eq_true]
@@ -300,9 +302,9 @@ theorem interrupt_repeat (nowMs : Nat) (hours : Int) (s : Store) (cut : Nat) :
         exact segmeta_foldl_of_not_isSegmeta _ s (fun t ht => hfront t (List.mem_of_mem_take ht))
       have hrl : readLocal (runSteps s ((stepsFor deleteOrder vs).take cut)) = readLocal s := by
         unfold readLocal; rw [hsm]
-      unfold pass
+      unfold passOld
       simp only [hrl, hvs]
-      unfold deleteSegmentData
+      unfold deleteSegmentDataOld
       simp only [he, if_false, Bool.false_eq_true, List.take_length]
       unfold runSteps
       exact absorb_before _ _ s (fun t ht => List.mem_of_mem_take ht)
@@ -312,16 +314,150 @@ theorem interrupt_repeat (nowMs : Nat) (hours : Int) (s : Store) (cut : Nat) :
       rw [List.take_of_length_le hlen]
       have hnil := victims_after_full nowMs hours s
       simp only [hvs] at hnil
-      have hpass_s : pass deleteOrder nowMs hours s = runSteps s (stepsFor deleteOrder vs) := by
-        unfold pass
+      have hpass_s : passOld deleteOrder nowMs hours s = runSteps s (stepsFor deleteOrder vs) := by
+        unfold passOld
         simp only [hvs]
-        unfold deleteSegmentData
+        unfold deleteSegmentDataOld
         simp only [he, if_false, Bool.false_eq_true, List.take_length]
       rw [hpass_s]
-      unfold pass
+      unfold passOld
       simp only [hnil]
-      unfold deleteSegmentData
+      unfold deleteSegmentDataOld
       simp
+
+
+/-! ### the repaired protocol (pqids read from the .sfm files) against the old one -/
+
+/-- forget the pqids of a pq step -/
+def erasePq : Step → Step
+  | .pq k _ => .pq k []
+  | t => t
+
+def clearPqids (v : Meta) : Meta := { v with pqids := [] }
+
+theorem withoutPq_applyStep (s : Store) (t : Step) :
+    withoutPq (applyStep s t) = applyStep (withoutPq s) (erasePq t) := by
+  cases t <;> simp [withoutPq, applyStep, erasePq]
+
+theorem withoutPq_foldl (L : List Step) (s : Store) :
+    withoutPq (L.foldl applyStep s) = (L.map erasePq).foldl applyStep (withoutPq s) := by
+  induction L generalizing s with
+  | nil => rfl
+  | cons t L ih => simp only [List.foldl_cons, List.map_cons]; rw [ih, withoutPq_applyStep]
+
+theorem phaseSteps_erase (vs : List Meta) (ph : Phase) :
+    (phaseSteps vs ph).map erasePq = (phaseSteps (vs.map clearPqids) ph).map erasePq := by
+  cases ph <;> simp [phaseSteps, erasePq, clearPqids, List.map_map, Function.comp_def]
+
+theorem stepsFor_erase (order : List Phase) (vs : List Meta) :
+    (stepsFor order vs).map erasePq = (stepsFor order (vs.map clearPqids)).map erasePq := by
+  unfold stepsFor
+  induction order with
+  | nil => rfl
+  | cons ph r ih => simp only [List.flatMap_cons, List.map_append, ih, phaseSteps_erase vs ph]
+
+theorem withSfmPqids_clear (s : Store) (vs : List Meta) :
+    (withSfmPqids s vs).map clearPqids = vs.map clearPqids := by
+  unfold withSfmPqids
+  rw [List.map_map]
+  apply List.map_congr_left
+  intro v _
+  simp only [Function.comp_def, clearPqids]
+  split <;> rfl
+
+theorem withSfmPqids_keys (s : Store) (vs : List Meta) :
+    (withSfmPqids s vs).map (·.key) = vs.map (·.key) := by
+  unfold withSfmPqids
+  rw [List.map_map]
+  apply List.map_congr_left
+  intro v _
+  simp only [Function.comp_def]
+  split <;> rfl
+
+theorem withSfmPqids_congr (s s1 : Store) (hf : s1.files = s.files) (hq : s1.sfmPq = s.sfmPq) (vs : List Meta) :
+    withSfmPqids s1 vs = withSfmPqids s vs := by
+  unfold withSfmPqids sfmPqids; rw [hf, hq]
+
+theorem withSfmPqids_isEmpty (s : Store) (vs : List Meta) : (withSfmPqids s vs).isEmpty = vs.isEmpty := by
+  unfold withSfmPqids; cases vs <;> rfl
+
+/-- the step lists of the repaired and the old protocol differ only in the pqids of the pq steps -/
+theorem stepsFor_withSfm_erase (order : List Phase) (s : Store) (vs : List Meta) :
+    (stepsFor order (withSfmPqids s vs)).map erasePq = (stepsFor order vs).map erasePq := by
+  rw [stepsFor_erase order (withSfmPqids s vs), withSfmPqids_clear, ← stepsFor_erase]
+
+theorem stepsFor_withSfm_length (order : List Phase) (s : Store) (vs : List Meta) :
+    (stepsFor order (withSfmPqids s vs)).length = (stepsFor order vs).length := by
+  have := congrArg List.length (stepsFor_withSfm_erase order s vs)
+  simpa using this
+
+/-- on a store without empty-PQ entries the pqids of the pq steps do not matter -/
+theorem foldl_erase_of_noPq (L : List Step) (s : Store) (h : s.pqMeta = []) :
+    (L.map erasePq).foldl applyStep s = L.foldl applyStep s := by
+  induction L generalizing s with
+  | nil => rfl
+  | cons t L ih =>
+    simp only [List.foldl_cons, List.map_cons]
+    have e : applyStep s (erasePq t) = applyStep s t := by
+      cases t <;> simp [applyStep, erasePq, h]
+    rw [e]
+    apply ih
+    cases t <;> simp [applyStep, h]
+
+/-- KEY: outside the empty-PQ meta files the repaired `DeleteSegmentData` does exactly what the old one did -/
+theorem withoutPq_deleteSegmentData (order : List Phase) (vs : List Meta) (s : Store) (cut : Nat) :
+    withoutPq (deleteSegmentData order vs s cut) = deleteSegmentDataOld order vs (withoutPq s) cut := by
+  unfold deleteSegmentData deleteSegmentDataOld
+  split
+  · rfl
+  · unfold runSteps
+    rw [withoutPq_foldl, List.map_take, stepsFor_withSfm_erase, ← List.map_take,
+      foldl_erase_of_noPq _ _ rfl]
+
+theorem readLocal_withoutPq (s : Store) : readLocal (withoutPq s) = readLocal s := rfl
+
+theorem withoutPq_passCut (nowMs : Nat) (hours : Int) (s : Store) (cut : Nat) :
+    withoutPq (passCut deleteOrder nowMs hours s cut) = passCutOld deleteOrder nowMs hours (withoutPq s) cut := by
+  unfold passCut passCutOld
+  rw [withoutPq_deleteSegmentData, readLocal_withoutPq]
+
+theorem withoutPq_pass (nowMs : Nat) (hours : Int) (s : Store) :
+    withoutPq (pass deleteOrder nowMs hours s) = passOld deleteOrder nowMs hours (withoutPq s) := by
+  unfold pass passOld
+  simp only [withoutPq_deleteSegmentData, readLocal_withoutPq]
+
+/-- interrupted + repeated = uninterrupted in blob store, local files, in-memory metadata and segmeta.json,
+for every cut point (the empty-PQ meta files are the subject of Props.C14 §3/§4) -/
+theorem interrupt_repeat (nowMs : Nat) (hours : Int) (s : Store) (cut : Nat) :
+    withoutPq (pass deleteOrder nowMs hours (passCut deleteOrder nowMs hours s cut))
+      = withoutPq (pass deleteOrder nowMs hours s) := by
+  rw [withoutPq_pass, withoutPq_passCut, interrupt_repeat_old, ← withoutPq_pass]
+
+/-- an uninterrupted pass with at least one victim runs the whole step list of the victims (with the
+pqids of their .sfm files) -/
+theorem pass_eq_foldl (nowMs : Nat) (hours : Int) (s : Store)
+    (hne : (victims nowMs hours 0 (readLocal s)).isEmpty = false) :
+    pass deleteOrder nowMs hours s
+      = (stepsFor deleteOrder (withSfmPqids s (victims nowMs hours 0 (readLocal s)))).foldl applyStep s := by
+  unfold pass deleteSegmentData runSteps
+  simp only [hne, Bool.false_eq_true, if_false]
+  rw [← stepsFor_withSfm_length deleteOrder s, List.take_length]
+
+/-- after a complete pass a second selection finds no victim (old and repaired protocol) -/
+theorem victims_after_passOld (nowMs : Nat) (hours : Int) (s : Store) :
+    victims nowMs hours 0 (readLocal (passOld deleteOrder nowMs hours s)) = [] := by
+  unfold passOld deleteSegmentDataOld
+  simp only [List.take_length]
+  split
+  · rename_i he
+    exact List.isEmpty_iff.mp he
+  · exact victims_after_full nowMs hours s
+
+theorem victims_after_pass (nowMs : Nat) (hours : Int) (s : Store) :
+    victims nowMs hours 0 (readLocal (pass deleteOrder nowMs hours s)) = [] := by
+  have h : readLocal (pass deleteOrder nowMs hours s) = readLocal (passOld deleteOrder nowMs hours (withoutPq s)) := by
+    rw [← withoutPq_pass]; rfl
+  rw [h, victims_after_passOld]
 
 /-! ### the volume pass -/
 
